@@ -15,3 +15,15 @@ elab "#audit_ns " ns:ident : command => do
     let axs ← liftCoreM (collectAxioms n)
     let axs := axs.qsort (fun a b => a.toString < b.toString)
     logInfo m!"AUDIT {n} :: {",".intercalate (axs.toList.map toString)}"
+
+/-- `#audit_names n₁ n₂ …`: axioms of the named theorems -/
+elab "#audit_names " ns:ident* : command => do
+  for n in ns do
+    let name := n.getId
+    let env ← getEnv
+    if env.contains name then
+      let axs ← liftCoreM (collectAxioms name)
+      let axs := axs.qsort (fun a b => a.toString < b.toString)
+      logInfo m!"AUDIT {name} :: {",".intercalate (axs.toList.map toString)}"
+    else
+      logError m!"AUDIT-MISSING {name}"
